@@ -197,7 +197,7 @@ func checkCmd(repo, verif, prop, tier, only string) int {
 	for pk, why := range P.initFail {
 		debugf("init of %s skipped: %s", pk, why)
 	}
-	o := runOpts{workers: runtime.NumCPU(), maxPaths: 20000, timeoutMs: 10000, witnesses: 3}
+	o := runOpts{workers: runtime.NumCPU(), maxPaths: 60000, timeoutMs: 10000, witnesses: 3}
 	if tier == "thorough" {
 		o.maxPaths = 400000
 		o.timeoutMs = 60000
